@@ -172,6 +172,12 @@ func newRROnce(c newRRCase) (error, bool) {
 	}
 	done := make(chan res, 1)
 	timer := time.NewTimer(watchdog)
+	stall := newStallWatch(watchdog)
+	ticker := heapTicker
+	if ticker == nil {
+		heapTicker = time.NewTicker(250 * time.Millisecond)
+		ticker = heapTicker
+	}
 	go func() {
 		var r res
 		defer func() {
@@ -194,19 +200,31 @@ func newRROnce(c newRRCase) (error, bool) {
 	}()
 	// (nothing that allocates runs on this goroutine while the call is measured)
 	var r res
+	extended := false
+wait:
 	select {
 	case r = <-done:
-	case <-timer.C:
-		// slow or hung? the same call gets three more periods
-		timer.Reset(time.Duration(confirmRuns) * watchdog)
-		select {
-		case r = <-done:
-		case <-timer.C:
+	case <-ticker.C:
+		// NewRR reads a string: nothing it does is visible from outside, so the stall watch is the
+		// plain CPU budget (a quarter of the watchdog period)
+		if used, yes := stall.stalled(); yes {
 			hangSeen = true
 			buf := make([]byte, 1<<20)
 			buf = buf[:runtime.Stack(buf, true)]
-			return fmt.Errorf("NewRR did not finish within %v:\n%s", time.Duration(confirmRuns+1)*watchdog, buf), false
+			return fmt.Errorf("NewRR did not finish: it has used %v of CPU time (budget %v; wall-clock limit %v):\n%s", used.Round(100*time.Millisecond), stall.budget, time.Duration(confirmRuns+1)*watchdog, buf), false
 		}
+		goto wait
+	case <-timer.C:
+		// slow or hung? the same call gets three more periods
+		if !extended {
+			extended = true
+			timer.Reset(time.Duration(confirmRuns) * watchdog)
+			goto wait
+		}
+		hangSeen = true
+		buf := make([]byte, 1<<20)
+		buf = buf[:runtime.Stack(buf, true)]
+		return fmt.Errorf("NewRR did not finish within %v:\n%s", time.Duration(confirmRuns+1)*watchdog, buf), false
 	}
 	timer.Stop()
 	if r.pan != nil {
